@@ -58,7 +58,16 @@ def eval_construct(case):
             return {"violations": [], "outcome": "n/a"}
     if branch == "long" and not all(k in tb for k in LONG):
         return {"violations": [], "outcome": "n/a"}
-    if branch == "alpha":
+    if branch == "alpha" and case.get("both"):  # all long columns AND a user alpha column: the user's alpha is used
+        a_user = 3.0 / (np.asarray(tb["compressibility"]) * np.asarray(tb["viscosity"])) ** 0.5
+        ok = np.asarray(tb["pseudopressure"]) > 0
+        if container == "frame":
+            tb = tb[ok].reset_index(drop=True)
+            tb["alpha"] = a_user[ok]
+        else:
+            tb = {k: np.asarray(v)[ok] for k, v in tb.items()}
+            tb["alpha"] = a_user[ok]
+    elif branch == "alpha":
         if "alpha" not in tb:  # turn a long table into a user-alpha table
             a = 1.0 / (np.asarray(tb["compressibility"]) * np.asarray(tb["viscosity"]))
             ok = np.asarray(tb["pseudopressure"]) > 0  # precondition: positive properties (1/m is taken)
@@ -147,7 +156,7 @@ def eval_construct(case):
         viol.append(V("lookup/at-nodes", "alpha looked up at table nodes differs from the tabulated alpha", case=case))
     if not lo > 0:
         viol.append(V("alpha/positive", f"min alpha {lo!r}", case=case))
-    return {"violations": viol, "outcome": f"{branch}:{where}", "key": (name, container, branch, where)}
+    return {"violations": viol, "outcome": f"{branch}:{where}", "key": (name, container, branch, where, bool(case.get("both")))}
 
 
 def eval_missing(case):
@@ -193,8 +202,8 @@ def eval_rescale(case):
     if not (abs(at_f) <= 1e-12 and abs(at_i - 1) <= 1e-12):
         viol.append(V("rescale/endpoints", f"rescaled pseudopressure at p_f, p_i = {at_f!r}, {at_i!r} (want 0, 1)",
                       case=case))
-    if not np.all(np.diff(m) > 0):
-        viol.append(V("rescale/increasing", "rescaled pseudopressure is not strictly increasing", case=case))
+    if not np.all(np.diff(m) * np.sign(p_i - p_f) > 0):  # p_frac > p_i (injection) maps to a decreasing scale
+        viol.append(V("rescale/monotone", "rescaled pseudopressure is not strictly monotone from p_frac to p_i", case=case))
     for k in tb.keys():
         if k != "pseudopressure" and not np.array_equal(np.asarray(out[k]), np.asarray(tb[k])):
             viol.append(V("rescale/other-columns", f"column {k!r} changed", case=case))
@@ -217,11 +226,13 @@ def cases(tier, seed):
         if b == "long" and w == "first" and False:
             continue
         out.append({"kind": "construct", "table": t, "container": c, "branch": b, "where": w, "off": off})
+    for t, c, w in itertools.product(["T_ship_gas", "S_zdip"], ["frame", "dict"], ["node", "mid", "last"]):
+        out.append({"kind": "construct", "table": t, "container": c, "branch": "alpha", "where": w, "off": off, "both": True})
     for t, c, b in itertools.product(["T_ship_gas", "A_kink"], ["frame", "dict"], ["long", "alpha", "simple"]):
         for drop in {"long": LONG, "alpha": SHORT, "simple": SIMPLE}[b]:
             out.append({"kind": "missing", "table": t, "container": c, "branch": b, "drop": drop})
     for t, c, (ff, fi) in itertools.product(["T_ship_gas", "T_ship_oil", "S_zdip", "A_kink"], ["frame", "dict"],
-                                           [(0.0, 1.0), (0.1, 0.8), (0.123456, 0.654321)]):
+                                           [(0.0, 1.0), (0.1, 0.8), (0.123456, 0.654321), (0.8, 0.2)]):
         out.append({"kind": "rescale", "table": t, "container": c, "ff": ff, "fi": fi})
     return out
 
